@@ -945,4 +945,256 @@ theorem findClose_in_context (f : Bool) (A B : List Tok) (c : JVal) (hc : c.isCo
     rcases hobv with rfl | rfl <;> simp
   simp only [hne, if_false, h3, h4, h5, h6]
 
+/-! ### string, number and literal scanning -/
+
+theorem prefix_step {a : BitVec 8} {xs text : List (BitVec 8)} {i : Nat} (h : (a :: xs) <+: text.drop i) :
+    i < text.length ∧ text.getD i 0#8 = a ∧ xs <+: text.drop (i + 1) := by
+  obtain ⟨t, ht⟩ := h
+  have hi : i < text.length := by
+    apply Classical.byContradiction; intro hn
+    rw [List.drop_eq_nil_of_le (by omega)] at ht; simp at ht
+  rw [List.drop_eq_getElem_cons hi] at ht
+  simp only [List.cons_append, List.cons.injEq] at ht
+  refine ⟨hi, ?_, ⟨t, ht.2⟩⟩
+  simp [List.getD_eq_getElem?_getD, List.getElem?_eq_getElem hi, ht.1]
+
+theorem prefix_append_left {xs ys text : List (BitVec 8)} {i : Nat} (h : (xs ++ ys) <+: text.drop i) :
+    ys <+: text.drop (i + xs.length) := by
+  obtain ⟨t, ht⟩ := h
+  refine ⟨t, ?_⟩
+  have := congrArg (List.drop xs.length) ht
+  rw [List.append_assoc, List.drop_left', List.drop_drop] at this
+  rw [this]; congr 1 <;> omega
+
+theorem hex_not_special (h : HexDigit) : h.byte ≠ 0x22#8 ∧ h.byte ≠ 0x5C#8 := by
+  have := hex_inert h.val h.upper
+  simp only [inert, isQuote, isBackslash, Bool.and_eq_true, Bool.not_eq_true', beq_eq_false_iff_ne] at this
+  exact this
+
+/-- One loop iteration over a byte that is neither `"` nor `\`. -/
+theorem string_step_plain {text : List (BitVec 8)} {i : Nat} {b : BitVec 8} {xs : List (BitVec 8)}
+    (h : (b :: xs) <+: text.drop i) (h1 : b ≠ 0x22#8) (h2 : b ≠ 0x5C#8) (fuel : Nat) :
+    findStringEndLoop text (fuel + 1) i = findStringEndLoop text fuel (i + 1) := by
+  obtain ⟨hi, hg, _⟩ := prefix_step h
+  simp only [findStringEndLoop, hi, if_true, hg, h1, h2, if_false]
+
+theorem string_step_escape {text : List (BitVec 8)} {i : Nat} {xs : List (BitVec 8)}
+    (h : (0x5C#8 :: xs) <+: text.drop i) (fuel : Nat) :
+    findStringEndLoop text (fuel + 1) i = findStringEndLoop text fuel (i + 2) := by
+  obtain ⟨hi, hg, _⟩ := prefix_step h
+  have h1 : ¬ ((0x5C#8 : BitVec 8) = 0x22#8) := by decide
+  simp only [findStringEndLoop, hi, if_true, hg, h1, if_false]
+
+/-- `find_string_end`'s loop, started at the first body byte, stops at the closing quote. -/
+theorem scan_body (body : List SChar) :
+    ∀ (text : List (BitVec 8)) (i fuel : Nat),
+      (body.flatMap SChar.bytes ++ [0x22#8]) <+: text.drop i →
+      (body.flatMap SChar.bytes).length < fuel →
+      findStringEndLoop text fuel i = i + (body.flatMap SChar.bytes).length := by
+  induction body with
+  | nil =>
+    intro text i fuel h hf
+    obtain ⟨hi, hg, _⟩ := prefix_step (by simpa using h)
+    cases fuel with
+    | zero => simp at hf
+    | succ fuel => simp only [findStringEndLoop, hi, if_true, hg]; simp
+  | cons c cs ih =>
+    intro text i fuel h hf
+    simp only [List.flatMap_cons, List.append_assoc, List.length_append] at h hf ⊢
+    cases c with
+    | plain b =>
+      obtain ⟨b, h1, h2, _⟩ := b
+      simp only [SChar.bytes, List.cons_append, List.nil_append, List.length_cons, List.length_nil] at h hf ⊢
+      obtain ⟨fuel, rfl⟩ : ∃ f, fuel = f + 1 := ⟨fuel - 1, by omega⟩
+      rw [string_step_plain h h1 h2, ih text (i + 1) fuel (prefix_step h).2.2 (by omega)]
+      omega
+    | esc e =>
+      simp only [SChar.bytes, List.cons_append, List.nil_append, List.length_cons, List.length_nil] at h hf ⊢
+      obtain ⟨fuel, rfl⟩ : ∃ f, fuel = f + 1 := ⟨fuel - 1, by omega⟩
+      have h2 := (prefix_step (prefix_step h).2.2).2.2
+      rw [string_step_escape h, ih text (i + 2) fuel h2 (by omega)]
+      omega
+    | uni h1 h2 h3 h4 =>
+      simp only [SChar.bytes, List.cons_append, List.nil_append, List.length_cons, List.length_nil] at h hf ⊢
+      obtain ⟨fuel, rfl⟩ : ∃ f, fuel = f + 5 := ⟨fuel - 5, by omega⟩
+      have p2 := (prefix_step (prefix_step h).2.2).2.2
+      have p3 := (prefix_step p2).2.2
+      have p4 := (prefix_step p3).2.2
+      have p5 := (prefix_step p4).2.2
+      have p6 := (prefix_step p5).2.2
+      rw [string_step_escape h,
+        string_step_plain p2 (hex_not_special h1).1 (hex_not_special h1).2,
+        string_step_plain p3 (hex_not_special h2).1 (hex_not_special h2).2,
+        string_step_plain p4 (hex_not_special h3).1 (hex_not_special h3).2,
+        string_step_plain p5 (hex_not_special h4).1 (hex_not_special h4).2,
+        ih text (i + 2 + 1 + 1 + 1 + 1) fuel p6 (by omega)]
+      omega
+
+/-- `find_number_end`'s loop runs over number bytes and stops at the first other byte (or the end). -/
+theorem scan_number (nb : List (BitVec 8)) :
+    ∀ (text : List (BitVec 8)) (i fuel : Nat), nb <+: text.drop i →
+      (∀ b ∈ nb, isNumberByte b = true) →
+      (i + nb.length < text.length → isNumberByte (text.getD (i + nb.length) 0#8) = false) →
+      nb.length < fuel →
+      findNumberEndLoop text fuel i = i + nb.length := by
+  induction nb with
+  | nil =>
+    intro text i fuel _ _ hnext hf
+    obtain ⟨fuel, rfl⟩ : ∃ f, fuel = f + 1 := ⟨fuel - 1, by simp at hf; omega⟩
+    simp only [List.length_nil, Nat.add_zero] at hnext ⊢
+    by_cases hi : i < text.length
+    · simp only [findNumberEndLoop, hi, if_true, hnext hi]; simp
+    · simp only [findNumberEndLoop, hi, if_false]
+  | cons b bs ih =>
+    intro text i fuel h hall hnext hf
+    obtain ⟨hi, hg, hrest⟩ := prefix_step h
+    obtain ⟨fuel, rfl⟩ : ∃ f, fuel = f + 1 := ⟨fuel - 1, by simp at hf; omega⟩
+    have hb := hall b (by simp)
+    simp only [findNumberEndLoop, hi, if_true, hg, hb]
+    rw [ih text (i + 1) fuel hrest (fun x hx => hall x (by simp [hx]))
+      (by simpa [Nat.add_assoc, Nat.add_comm 1] using hnext) (by simp at hf; omega)]
+    simp; omega
+
+theorem matchesAt_of_prefix {lit text : List (BitVec 8)} {i : Nat} (h : lit <+: text.drop i)
+    (hpos : 0 < lit.length) :
+    matchesAt text i lit = true := by
+  obtain ⟨t, ht⟩ := h
+  have hlen : i + lit.length ≤ text.length := by
+    have := congrArg List.length ht
+    simp [List.length_drop] at this; omega
+  simp only [matchesAt, Bool.and_eq_true, decide_eq_true_eq, beq_iff_eq]
+  refine ⟨hlen, ?_⟩
+  rw [← ht]; simp
+
+/-! ### `skip_value` on a value in context -/
+
+theorem getD_mid (pre : List (BitVec 8)) (b : BitVec 8) (post : List (BitVec 8)) :
+    (pre ++ b :: post).getD pre.length 0#8 = b := by
+  rw [List.getD_eq_getElem?_getD, List.getElem?_append_right (Nat.le_refl _)]; simp
+
+theorem num_head (n : NumLit) : ∃ b0 rest, n.bytes = b0 :: rest ∧
+    (b0 = 0x2D#8 ∨ (0x30 ≤ b0.toNat ∧ b0.toNat ≤ 0x39)) := by
+  have hd1 : ∀ d : Fin 9, 0x30 ≤ (BitVec.ofNat 8 (0x31 + d.val)).toNat ∧ (BitVec.ofNat 8 (0x31 + d.val)).toNat ≤ 0x39 := by
+    decide
+  cases hn : n.neg
+  · cases hi : n.int with
+    | zero => exact ⟨0x30#8, _, by simp [NumLit.bytes, hn, hi, IntPart.bytes]; rfl, Or.inr (by decide)⟩
+    | nonzero d rest =>
+      exact ⟨_, _, by simp [NumLit.bytes, hn, hi, IntPart.bytes]; rfl, Or.inr (hd1 d)⟩
+  · exact ⟨0x2D#8, _, by simp [NumLit.bytes, hn]; rfl, Or.inl rfl⟩
+
+theorem number_first_byte : ∀ b : BitVec 8, (b = 0x2D#8 ∨ (0x30 ≤ b.toNat ∧ b.toNat ≤ 0x39)) →
+    b ≠ 0x7B#8 ∧ b ≠ 0x5B#8 ∧ b ≠ 0x22#8 ∧ b ≠ 0x74#8 ∧ b ≠ 0x66#8 ∧ b ≠ 0x6E#8 := by decide
+
+theorem drop_context (a v b : List (BitVec 8)) : (a ++ v ++ b).drop a.length = v ++ b := by
+  rw [List.append_assoc, List.drop_left']; rfl
+
+/-- `skip_value` at the first byte of a value `v` occurring anywhere in a token sequence returns the
+position just after `v`'s last byte; for a number this needs the following byte (if any) not to be
+one of `0-9 - + . e E` — in a document a number is followed by whitespace, `,`, `]`, `}` or the end. -/
+theorem skipValue_in_context (f : Bool) (A B : List Tok) (v : JVal)
+    (hnum : ∀ n, v = .num n → ∀ b, (toksBytes B).head? = some b → isNumberByte b = false) :
+    skipValue (build f (toksBytes (A ++ v.toks ++ B))) (toksBytes (A ++ v.toks ++ B)) (toksBytes A).length =
+      some ((toksBytes A).length + (toksBytes v.toks).length) := by
+  have htext : toksBytes (A ++ v.toks ++ B) = toksBytes A ++ toksBytes v.toks ++ toksBytes B := by
+    rw [toksBytes_append, toksBytes_append]
+  have hdrop : (toksBytes (A ++ v.toks ++ B)).drop (toksBytes A).length = toksBytes v.toks ++ toksBytes B := by
+    rw [htext, drop_context]
+  have hpre : ∀ xs ys, toksBytes v.toks = xs ++ ys → xs <+: (toksBytes (A ++ v.toks ++ B)).drop (toksBytes A).length := by
+    intro xs ys h; rw [hdrop, h]; exact ⟨ys ++ toksBytes B, by simp⟩
+  by_cases hc : v.isContainer = true
+  · -- containers
+    have hfc := findClose_in_context f A B v hc
+    obtain ⟨o, inner, cl, htoks, ho, hcl⟩ := container_shape v hc
+    obtain ⟨ob, hob, hobv, _⟩ := open_tok_bytes o ho
+    have hbytesV : toksBytes v.toks = ob :: (toksBytes inner ++ cl.bytes) := by
+      rw [htoks]; simp [toksBytes, hob]
+    obtain ⟨hi, hg, _⟩ := prefix_step (hpre [ob] _ (by rw [hbytesV]; rfl))
+    have hlt : ¬ ((toksBytes A).length ≥ (toksBytes (A ++ v.toks ++ B)).length) := by omega
+    have hor : ob = 0x7B#8 ∨ ob = 0x5B#8 := hobv
+    simp only [skipValue, hlt, if_false, hg, hor, if_true, hfc]
+    congr 1
+    rw [hbytesV]; simp; omega
+  · cases v with
+    | arr0 ws => simp [JVal.isContainer] at hc
+    | arr ws0 v ws1 rest => simp [JVal.isContainer] at hc
+    | obj0 ws => simp [JVal.isContainer] at hc
+    | obj ws0 k ws1 ws2 v ws3 rest => simp [JVal.isContainer] at hc
+    | str body =>
+      have hbytesV : toksBytes (JVal.str body).toks = 0x22#8 :: (body.flatMap SChar.bytes ++ [0x22#8]) := by
+        simp [JVal.toks, toksBytes, Tok.bytes]
+      have h0 := hpre _ [] (by rw [List.append_nil])
+      rw [hbytesV] at h0
+      obtain ⟨hi, hg, hrest⟩ := prefix_step h0
+      have hlt : ¬ ((toksBytes A).length ≥ (toksBytes (A ++ (JVal.str body).toks ++ B)).length) := by omega
+      have hlen : (body.flatMap SChar.bytes).length < (toksBytes (A ++ (JVal.str body).toks ++ B)).length + 1 := by
+        rw [htext, hbytesV]; simp; omega
+      have hscan := scan_body body _ ((toksBytes A).length + 1) _ hrest hlen
+      have hne : ¬ ((0x22#8 : BitVec 8) = 0x7B#8 ∨ (0x22#8 : BitVec 8) = 0x5B#8) := by decide
+      simp only [skipValue, hlt, if_false, hg, hne, if_true, findStringEnd, hscan]
+      congr 1
+      rw [hbytesV]; simp; omega
+    | lit l =>
+      have hbytesV : toksBytes (JVal.lit l).toks = l.bytes := by simp [JVal.toks, toksBytes, Tok.bytes]
+      have h0 := hpre _ [] (by rw [List.append_nil])
+      rw [hbytesV] at h0
+      have hm := fun hp => matchesAt_of_prefix h0 hp
+      rw [hbytesV]
+      cases l with
+      | tru =>
+        obtain ⟨hi, hg, _⟩ := prefix_step (show (0x74#8 :: [0x72#8, 0x75#8, 0x65#8]) <+: _ from h0)
+        have hlt : ¬ ((toksBytes A).length ≥ (toksBytes (A ++ (JVal.lit Lit.tru).toks ++ B)).length) := by omega
+        have := hm (by decide)
+        simp only [Lit.bytes] at this
+        have e1 : ¬ ((0x74#8 : BitVec 8) = 0x7B#8 ∨ (0x74#8 : BitVec 8) = 0x5B#8) := by decide
+        have e2 : ¬ ((0x74#8 : BitVec 8) = 0x22#8) := by decide
+        simp only [skipValue, hlt, if_false, hg, e1, e2, if_true, litTrue, this, Lit.bytes]
+        rfl
+      | fls =>
+        obtain ⟨hi, hg, _⟩ := prefix_step (show (0x66#8 :: [0x61#8, 0x6C#8, 0x73#8, 0x65#8]) <+: _ from h0)
+        have hlt : ¬ ((toksBytes A).length ≥ (toksBytes (A ++ (JVal.lit Lit.fls).toks ++ B)).length) := by omega
+        have := hm (by decide)
+        simp only [Lit.bytes] at this
+        have e1 : ¬ ((0x66#8 : BitVec 8) = 0x7B#8 ∨ (0x66#8 : BitVec 8) = 0x5B#8) := by decide
+        have e2 : ¬ ((0x66#8 : BitVec 8) = 0x22#8) := by decide
+        have e3 : ¬ ((0x66#8 : BitVec 8) = 0x74#8) := by decide
+        simp only [skipValue, hlt, if_false, hg, e1, e2, e3, if_true, litFalse, this, Lit.bytes]
+        rfl
+      | null =>
+        obtain ⟨hi, hg, _⟩ := prefix_step (show (0x6E#8 :: [0x75#8, 0x6C#8, 0x6C#8]) <+: _ from h0)
+        have hlt : ¬ ((toksBytes A).length ≥ (toksBytes (A ++ (JVal.lit Lit.null).toks ++ B)).length) := by omega
+        have := hm (by decide)
+        simp only [Lit.bytes] at this
+        have e1 : ¬ ((0x6E#8 : BitVec 8) = 0x7B#8 ∨ (0x6E#8 : BitVec 8) = 0x5B#8) := by decide
+        have e2 : ¬ ((0x6E#8 : BitVec 8) = 0x22#8) := by decide
+        have e3 : ¬ ((0x6E#8 : BitVec 8) = 0x74#8) := by decide
+        have e4 : ¬ ((0x6E#8 : BitVec 8) = 0x66#8) := by decide
+        simp only [skipValue, hlt, if_false, hg, e1, e2, e3, e4, if_true, litNull, this, Lit.bytes]
+        rfl
+    | num n =>
+      have hbytesV : toksBytes (JVal.num n).toks = n.bytes := by simp [JVal.toks, toksBytes, Tok.bytes]
+      have h0 := hpre _ [] (by rw [List.append_nil])
+      rw [hbytesV] at h0
+      obtain ⟨b0, rest, hb0, hkind⟩ := num_head n
+      obtain ⟨hi, hg, _⟩ := prefix_step (show (b0 :: rest) <+: _ from hb0 ▸ h0)
+      have hlt : ¬ ((toksBytes A).length ≥ (toksBytes (A ++ (JVal.num n).toks ++ B)).length) := by omega
+      obtain ⟨n1, n2, n3, n4, n5, n6⟩ := number_first_byte b0 hkind
+      have hnext : (toksBytes A).length + n.bytes.length < (toksBytes (A ++ (JVal.num n).toks ++ B)).length →
+          isNumberByte ((toksBytes (A ++ (JVal.num n).toks ++ B)).getD ((toksBytes A).length + n.bytes.length) 0#8) = false := by
+        intro hlt2
+        rw [htext, hbytesV] at hlt2 ⊢
+        have hBne : toksBytes B ≠ [] := by
+          intro he; rw [he] at hlt2; simp at hlt2
+        obtain ⟨b, bs, hB⟩ := List.exists_cons_of_ne_nil hBne
+        have hget : (toksBytes A ++ n.bytes ++ toksBytes B).getD ((toksBytes A).length + n.bytes.length) 0#8 = b := by
+          rw [hB, ← List.length_append]; exact getD_mid _ _ _
+        rw [hget]
+        exact hnum n rfl b (by rw [hB]; rfl)
+      have hscan := scan_number n.bytes _ (toksBytes A).length
+        ((toksBytes (A ++ (JVal.num n).toks ++ B)).length + 1) h0 (num_bytes_number n) hnext
+        (by rw [htext, hbytesV]; simp; omega)
+      have hor : b0 = 0x2D#8 ∨ (0x30 ≤ b0.toNat ∧ b0.toNat ≤ 0x39) := hkind
+      simp only [skipValue, hlt, if_false, hg, n1, n2, n3, n4, n5, n6, false_or, hor, if_true,
+        findNumberEnd, hscan, hbytesV]
+
 end SV.JsonSimple
